@@ -87,6 +87,10 @@ type statusReport struct {
 	id   ssa.Value // instance id argument (nil for hostWrapper.Report)
 	recv ssa.Value
 	ev   ssa.Value
+	// set by statusReportsA6 (robust_A6.go): the error the event carries, and the nil conditions (in the
+	// reporting function's values) under which a helper picks this event / a wrapper makes this report
+	errArg ssa.Value
+	conds  []nilCondA6
 }
 
 func statusReports(fn *ssa.Function, names map[int64]string) []statusReport {
@@ -112,14 +116,14 @@ func statusReports(fn *ssa.Function, names map[int64]string) []statusReport {
 		switch {
 		case f.Name() == "ReportStatus" && len(args) == 2:
 			if k := eventKind(args[1], names); k != "" {
-				out = append(out, statusReport{ci, k, args[0], recv, args[1]})
+				out = append(out, statusReport{call: ci, kind: k, id: args[0], recv: recv, ev: args[1]})
 			}
 		case f.Name() == "Report" && len(args) == 1:
 			if k := eventKind(args[0], names); k != "" {
-				out = append(out, statusReport{ci, k, nil, recv, args[0]})
+				out = append(out, statusReport{call: ci, kind: k, recv: recv, ev: args[0]})
 			}
 		case f.Name() == "ReportOKIfStarting" && len(args) == 1:
-			out = append(out, statusReport{ci, "OKIfStarting", args[0], recv, nil})
+			out = append(out, statusReport{call: ci, kind: "OKIfStarting", id: args[0], recv: recv})
 		}
 	})
 	return out
@@ -208,7 +212,8 @@ func runC11Lifecycle(c *Ctx, names map[int64]string) {
 		fns = append(fns, p.AllSrcFuncs(pk)...)
 	}
 	for _, fn := range fns {
-		reps := statusReports(fn, names)
+		// reports made through same-package wrappers and events picked by helpers count (robust_A6.go)
+		reps := statusReportsA6(fn, names)
 		for _, call := range lifecycleCalls(fn, "Start") {
 			site := "Start site in " + fnName(fn)
 			pos := p.Pos(call.Pos())
@@ -228,7 +233,7 @@ func runC11Lifecycle(c *Ctx, names map[int64]string) {
 			var fail, okrep *statusReport
 			for i := range reps {
 				r := &reps[i]
-				if r.kind == "PermanentError" && errGuardOn(r.call.Block(), call, false) {
+				if r.kind == "PermanentError" && reportOnErrSideA6(r, call, false) {
 					fail = r
 				}
 				if r.kind == "OKIfStarting" && canReach(call, r.call, nil) {
@@ -239,17 +244,14 @@ func runC11Lifecycle(c *Ctx, names map[int64]string) {
 				c.Bad(site+": PermanentError on failed Start", pos, "no PermanentError report on the err!=nil side of Start")
 			} else {
 				same := starting.id == nil || sameValue(starting.id, fail.id)
-				evErr := false
-				if ec, ok := strip(fail.ev).(*ssa.Call); ok && len(ec.Call.Args) == 1 && valueIsResultOf(ec.Call.Args[0], call) {
-					evErr = true
-				}
+				evErr := fail.errArg != nil && valueIsResultOf(fail.errArg, call)
 				c.Check(same && evErr, site+": PermanentError on failed Start", p.Pos(fail.call.Pos()), "reported for the same instance with Start's error", fmt.Sprintf("same instance=%v, carries Start's error=%v", same, evErr))
 			}
 			if starting.id != nil {
 				if okrep == nil {
 					c.Bad(site+": ReportOKIfStarting after successful Start", pos, "no ReportOKIfStarting reachable after Start")
 				} else {
-					notOnFail := !errGuardOn(okrep.call.Block(), call, false)
+					notOnFail := !reportOnErrSideA6(okrep, call, false)
 					// on the failing side the function must return before OK: OK must not be reachable from the failure report
 					if fail != nil && canReach(fail.call, okrep.call, map[ssa.Instruction]bool{call.(ssa.Instruction): true}) {
 						notOnFail = false
@@ -274,7 +276,7 @@ func runC11Lifecycle(c *Ctx, names map[int64]string) {
 				case "Stopped":
 					stopped = r
 				case "PermanentError":
-					if errGuardOn(r.call.Block(), call, false) {
+					if reportOnErrSideA6(r, call, false) {
 						fail = r
 					}
 				}
@@ -286,7 +288,7 @@ func runC11Lifecycle(c *Ctx, names map[int64]string) {
 			if stopped == nil {
 				c.Bad(site+": Stopped after successful Shutdown", pos, "no Stopped report")
 			} else {
-				okSide := errGuardOn(stopped.call.Block(), call, true)
+				okSide := reportOnErrSideA6(stopped, call, true)
 				if !okSide {
 					// alternative idiom: failing side `continue`s/returns, Stopped follows unguarded but is
 					// unreachable from the failure report without passing the Shutdown call again
